@@ -64,6 +64,17 @@ def mk_tc(p, via="ctor"):
     from spacepackets.ecss.tc import PusTc, PusTcDataFieldHeader
     from spacepackets.ccsds.spacepacket import SpacePacketHeader, PacketType
     data = bytes(p["data"])
+    if via == "empty":
+        # the public route PusTc.empty() + setters; an earlier empty() object is changed first (they must not share state)
+        def fill(t, q):
+            t.apid, t.seq_count, t.source_id, t.app_data = q["apid"], q["seq"], q["source"], bytes(q["data"])
+            t.pus_tc_sec_header.service, t.pus_tc_sec_header.subservice = q["service"], q["subservice"]
+            t.pus_tc_sec_header.ack_flags = q["ack"]
+            return t
+        fill(PusTc.empty(), {"apid": (p["apid"] + 5) % 2048, "seq": (p["seq"] + 5) % 16384, "source": (p["source"] + 5) % 65536,
+                             "data": list(data) + [9, 9, 9], "service": (p["service"] + 5) % 256,
+                             "subservice": (p["subservice"] + 5) % 256, "ack": (p["ack"] + 5) % 16}).pack()
+        return fill(PusTc.empty(), p)
     if via == "bytearray":        # the caller keeps its application data in a bytearray (e.g. a receive buffer)
         return PusTc(service=p["service"], subservice=p["subservice"], apid=p["apid"], app_data=bytearray(data),
                      seq_count=p["seq"], source_id=p["source"], ack_flags=p["ack"])
